@@ -215,7 +215,38 @@ def check_model(model, rec):
     return MS.model_failures(model, rec, lambda sig, cmd: cmd in CMDS, "model")
 
 
-PARTS = {"unit": check_unit, "model": check_model}
+def check_foreign(case, rec):
+    """Two programs alive at once that use the same result names for different data (one model, two sites); a command of
+    the second is handed producers of the *first* as Command objects: it computes with the results it was handed."""
+    from mpilot.program import EEMS_CSV_LIBRARIES, Program
+
+    cmd = case["cmd"]
+    o = U.evaluate(case)
+    if o.status != "ok" or o.ref_kind != "cells" or case.get("aliases") or case.get("inputs_fuzzy"):
+        return []
+    progs = [Program(libraries=EEMS_CSV_LIBRARIES), Program(libraries=EEMS_CSV_LIBRARIES)]
+    for k, prog in enumerate(progs):
+        for i, spec in enumerate(case["arrays"]):
+            arr = A.make_array(spec, case.get("shape"))
+            prog.commands["P%d" % i] = A.stub("P%d" % i, arr if k == 0 else arr + 3)
+    handed = [progs[0].commands["P%d" % i] for i in range(len(case["arrays"]))]
+    pn = A.INPUT_PARAM[cmd]
+    args = {pn[0]: handed} if cmd in NARY else {p: c for p, c in zip(pn, handed)}
+    args.update(case["params"])
+    try:
+        progs[1].add_command(progs[1].find_command_class(cmd), "C", args)
+        progs[1].run()
+        res = progs[1].commands["C"].result
+    except Exception as exc:
+        return [Failure("%s|producers_of_another_program|raises:%s" % (o.sig, A.exc_name(exc)), repr(exc)[:300])]
+    rec.label("producers_of_another_program")
+    rec.nontrivial_case(["foreign", case])
+    if not (isinstance(res, numpy.ndarray) and U.result_equal(res, o.result, 0.0)):
+        return [Failure("%s|producers_of_another_program|value" % o.sig, "%r, the command on the results it was handed gives %r" % (res, o.result))]
+    return []
+
+
+PARTS = {"unit": check_unit, "model": check_model, "foreign": check_foreign}
 
 
 @st.composite
@@ -233,3 +264,4 @@ def run_shard(ctx, rec):
     drive_enum(ctx, rec, "unit", matrix_cases(ctx), check_unit, exhaustive=True, tag="unit/dtype_order_matrix")
     drive(ctx, rec, "unit", unit_cases(), check_unit, ctx.n(3000, 100000))
     drive(ctx, rec, "unit", error_case(), check_unit, ctx.n(600, 12000), tag="unit/errors")
+    drive(ctx, rec, "foreign", G.unit_case(CMDS, max_rank=2, dtypes=("float64", "int64")), check_foreign, ctx.n(600, 8000))
